@@ -296,14 +296,14 @@ for typ in array:
 @logaddexp.register(array, array)
 def _safe_logaddexp_tensor_tensor(x, y):
     finfo = np.finfo(x.dtype)
-    shift = np.clip(max(detach(x), detach(y)), finfo.min, None)
+    shift = np.clip(max(detach(x), detach(y)), finfo.min, finfo.max)
     return np.log(np.exp(x - shift) + np.exp(y - shift)) + shift
 
 
 @logaddexp.register(numbers.Number, array)
 def _safe_logaddexp_number_tensor(x, y):
     finfo = np.finfo(y.dtype)
-    shift = np.clip(detach(y), max(x, finfo.min), None)
+    shift = np.clip(detach(y), max(x, finfo.min), finfo.max)
     return np.log(np.exp(x - shift) + np.exp(y - shift)) + shift
 
 
